@@ -25,7 +25,8 @@ RULE = ('a case = a property package of 1-8 user-defined chemicals (custom CAS n
         'operations (12%: 150-260 with distinct tuple keys so the 100-entry cache evicts) of reads/writes on all of them with '
         'set_alias / define_group calls IN BETWEEN (new names, and in half of the cases risky ones: redefined groups, phase letters, '
         'chemical IDs), each followed by revisits of keys looked up before it; split data: scalars, vectors, nested vectors for groups, '
-        'malformed lengths/nesting. Compared there in addition: outcome of every configuration call, SplitIndexer values (nested '
+        'malformed lengths/nesting; writes through (..., IDs) and (..., ...) with every data form (per-phase vectors, length-1 vectors, 2-d data, '
+        'wrong lengths) run through the full model of SparseArray column assignment (ModelEll.v). Compared there in addition: outcome of every configuration call, SplitIndexer values (nested '
         'structure exactly) and data after each write, the FINAL name table and compositions. '
         'non-trivial = at least 5 successful reads or writes; distinct = distinct case hash')
 ASSUMPTIONS = [
@@ -35,10 +36,10 @@ ASSUMPTIONS = [
     'history independence with configuration calls between look-ups is proved for calls that define a NEW name that is not a one-letter (phase-like) name (safe_cop); for other calls (group redefinition, a phase letter or an existing ID as new name) the code keeps stale cache entries: C10_cfg_redefine_refuted / C10_cfg_phase_alias_refuted, finding C10:config-stale-cache; the model reproduces the stale behaviour and the correspondence covers it',
     'SplitIndexer data are numbers, flat sequences of numbers, or sequences whose elements are numbers or flat sequences (one level of nesting)',
     'group compositions have a non-zero sum; float rounding is not modelled (values compared to 1e-9 relative, structure exactly)',
-    'writes through (..., IDs) use SparseArray column assignment (property C09); modelled for scalars and for vectors of exactly the indexed length',
+    'writes through (..., IDs) use SparseArray column assignment (property C09): in the multi-package machine (Model.mat_set) modelled for scalars and for vectors of exactly the indexed length; in history cases (ModelEll.mat_set2) modelled for every data form (scalars, vectors of any length incl. one value per phase and length-1 vectors stripped to scalars, 2-d data with one row per phase) except 2-d data times a group composition',
     'data written through the ellipsis has at most as many entries as there are chemicals',
 ]
-TRUSTED = ['model coq/C10/Model.v and ModelCfg.v are hand-written from thermosteam/_chemicals.py, indexer.py, utils/cache.py, _phase.py; tie = correspondence check '
+TRUSTED = ['model coq/C10/Model.v, ModelCfg.v and ModelEll.v are hand-written from thermosteam/base/sparse.py (__setitem__, reduce_ndim), thermosteam/_chemicals.py, indexer.py, utils/cache.py, _phase.py; tie = correspondence check '
            '(values, error classes, data after writes, final cache contents and order)']
 
 _env = {}
@@ -547,7 +548,7 @@ def gen_cases(rng, tier):
         nsmall, nbig = 3000, 120
     small = [small_case(rng) for _ in range(nsmall)]
     big = [big_case(rng, rng.choice([700, 900, 1200, 1600])) for _ in range(nbig)]
-    nhist = 90 if tier == 'quick' else 900
+    nhist = 70 if tier == 'quick' else 900
     hist = [hist_case(rng) for _ in range(nhist)]
     small = [c for pair in itertools.zip_longest(small, hist) for c in pair if c is not None]
     # spread the big cases over the shards
